@@ -57,7 +57,8 @@ Definition unop_of_Z (z : Z) : unop :=
   | 10 => U_ln_1p | 11 => U_sin | 12 => U_cos | 13 => U_tan | 14 => U_asin | 15 => U_acos | 16 => U_atan | 17 => U_sinh | 18 => U_cosh
   | 19 => U_tanh | 20 => U_asinh | 21 => U_acosh | _ => U_atanh
   end%Z.
-Definition binop_of_Z (z : Z) : binop := match z with 0 => B_add | 1 => B_sub | 2 => B_mul | _ => B_div end%Z.
+(* 4..7: the same operator written in its compound-assignment form in the harness (a += c, ...); C08 proves those forms equal to the operators *)
+Definition binop_of_Z (z : Z) : binop := match z with 0 | 4 => B_add | 1 | 5 => B_sub | 2 | 6 => B_mul | _ => B_div end%Z.
 Fixpoint dec_prog (fuel : nat) (l : list Z) : prog * list Z :=
   match fuel with
   | O => (PConst 0, l)
